@@ -482,6 +482,33 @@ fn short_message(rng: &mut StdRng, kind: u8) -> Vec<u8> {
     b
 }
 
+/// a message whose fields are all longer than four vector widths
+fn long_fields_message(rng: &mut StdRng, kind: u8) -> Vec<u8> {
+    let mut b: Vec<u8> = Vec::new();
+    let run = |rng: &mut StdRng, n: usize, b: &mut Vec<u8>| { for _ in 0..n { b.push(rng.gen_range(b'a'..=b'z')); } };
+    if kind == K_REQ {
+        b.extend_from_slice(b"GET /");
+        let n = rng.gen_range(64..140);
+        run(rng, n, &mut b);
+        b.extend_from_slice(b" HTTP/1.1\r\n");
+    } else {
+        b.extend_from_slice(b"HTTP/1.1 200 ");
+        let n = rng.gen_range(64..140);
+        run(rng, n, &mut b);
+        b.extend_from_slice(b"\r\n");
+    }
+    for _ in 0..rng.gen_range(1..4) {
+        let n = rng.gen_range(1..40);
+        run(rng, n, &mut b);
+        b.extend_from_slice(b": ");
+        let n = rng.gen_range(40..120);
+        run(rng, n, &mut b);
+        b.extend_from_slice(b"\r\n");
+    }
+    b.extend_from_slice(b"\r\n");
+    b
+}
+
 /// call histories on one re-used value and array
 pub fn cmd_session(args: &[String]) {
     use std::mem::MaybeUninit;
@@ -500,11 +527,24 @@ pub fn cmd_session(args: &[String]) {
         // plan: (uninit?, ucap, cfg, buffer); the README loop (growing prefixes of one message) is one shape
         let readme = rng.gen_bool(0.3);
         let full = short_message(&mut rng, kind);
+        // third shape: ONE receive buffer at a fixed address, REFILLED between the calls with
+        // messages of the same length (long fields; each call's message is the previous one with
+        // a few bytes changed): whatever a value remembers about "this address, this length" is stale
+        let refill = !readme && rng.gen_bool(0.3);
+        let mut long = long_fields_message(&mut rng, kind);
         let mut plan: Vec<(bool, usize, u8, Vec<u8>)> = Vec::new();
         for ci in 0..ncalls {
             let buf = if readme {
                 let k = full.len() * (ci + 1) / ncalls;
                 full[..k].to_vec()
+            } else if refill {
+                if ci > 0 {
+                    for _ in 0..rng.gen_range(1..=2) {
+                        let i = rng.gen_range(0..long.len());
+                        long[i] = [0xC3u8, 0xFF, 0x00, 0x7F, b' ', b'\r', b'\n', b':', b'a', b'Z', 0x80, b'\t'][rng.gen_range(0..12)];
+                    }
+                }
+                long.clone()
             } else {
                 short_message(&mut rng, kind)
             };
@@ -522,6 +562,9 @@ pub fn cmd_session(args: &[String]) {
             store.iter().map(|v| &v[..]).collect()
         };
         // with the default configuration also go through the convenience entry points
+        let mut rawbuf: Vec<u8> = vec![0u8; long.len() + 1];
+        let rawp = rawbuf.as_mut_ptr();
+        let _ = &mut rawbuf;
         let plain: Vec<bool> = plan.iter().map(|p| p.2 == 0 && (p.3.len() + si) % 2 == 0).collect();
         let mut arr: Vec<httparse::Header> = (0..cap).map(sentinel).collect();
         let arr_base = arr.as_ptr() as usize;
@@ -537,7 +580,12 @@ pub fn cmd_session(args: &[String]) {
         if kind == K_REQ {
             let mut req = httparse::Request::new(&mut arr[..]);
             for (ci, p) in plan.iter().enumerate() {
-                let buf: &[u8] = bufs[ci];
+                let buf: &[u8] = if refill {
+                    unsafe {
+                        std::ptr::copy_nonoverlapping(p.3.as_ptr(), rawp, p.3.len());
+                        std::slice::from_raw_parts(rawp as *const u8, p.3.len())
+                    }
+                } else { bufs[ci] };
                 let un = un_iter.next().unwrap();
                 let cfg = make_config(p.2);
                 let before_ptr = req.headers.as_ptr() as usize;
@@ -568,7 +616,12 @@ pub fn cmd_session(args: &[String]) {
         } else {
             let mut resp = httparse::Response::new(&mut arr[..]);
             for (ci, p) in plan.iter().enumerate() {
-                let buf: &[u8] = bufs[ci];
+                let buf: &[u8] = if refill {
+                    unsafe {
+                        std::ptr::copy_nonoverlapping(p.3.as_ptr(), rawp, p.3.len());
+                        std::slice::from_raw_parts(rawp as *const u8, p.3.len())
+                    }
+                } else { bufs[ci] };
                 let un = un_iter.next().unwrap();
                 let cfg = make_config(p.2);
                 let before_ptr = resp.headers.as_ptr() as usize;
@@ -713,6 +766,48 @@ pub fn cmd_scan(args: &[String]) {
                                 events += 1;
                             }
                         }
+                    }
+                }
+            }
+        }
+    }
+    // every PAIR of adjacent byte values at every lane of a word (and across the word boundary):
+    // block arithmetic lets a lane influence its neighbour through a borrow or carry, and which
+    // pairs do so depends on the constants of the class (`-` next to `,` in a name, DEL next to
+    // 0x80 in a value).  qb at lane p-1 is fixed per event, b at lane p sweeps all 256 values:
+    // 256 x 256 pairs per lane, class and backend.
+    {
+        let n = 12usize;
+        for backend in 0u8..4 {
+            if httparse::verif::scan(backend, 0, b"abc").is_none() { continue; }
+            for cls in 0u8..3 {
+                if httparse::verif::scan(backend, cls, b"abc").is_none() { continue; }
+                for p in 2..=9usize {
+                    if !thorough && (p + seed as usize) % 2 == 1 && p != 9 { continue; }
+                    for qb in 0..=255u8 {
+                        let q = p - 1;
+                        let mut stops = [0usize; 256];
+                        for b in 0..256usize {
+                            for i in 0..n { data[i] = 97; }
+                            data[q - 1] = qb;
+                            data[p - 1] = b as u8;
+                            let buf = arena.place(&data[..n], Place::End);
+                            stops[b] = httparse::verif::scan(backend, cls, buf).unwrap();
+                            calls += 1;
+                        }
+                        let mut runs = String::new();
+                        let mut i = 0;
+                        while i < 256 {
+                            let mut j = i;
+                            while j < 256 && stops[j] == stops[i] { j += 1; }
+                            if !runs.is_empty() { runs.push(','); }
+                            runs.push_str(&format!("[{},{}]", stops[i], j - i));
+                            i = j;
+                        }
+                        let w = &mut ws[(events as usize) % shards];
+                        writeln!(w, "{{\"ev\":\"scan\",\"backend\":{},\"cls\":{},\"n\":{},\"p\":{},\"fill\":97,\"q\":{},\"qb\":{},\"align\":99,\"runs\":[{}]}}",
+                            backend, cls, n, p, q, qb, runs).unwrap();
+                        events += 1;
                     }
                 }
             }
